@@ -396,3 +396,75 @@ def _memento(a, url, rver, cid, ck, ninv, nres, rt, ty, has_key, real_json=False
         check("content-key", back.content_key == content_key, back.content_key)
     else:
         check("content-key", back.content_key is None, back.content_key)
+
+
+# ------------------------------------------------------------------------------------------------
+# decoding is a function of the document and of the CURRENT program - not of what was decoded earlier in the process
+# ------------------------------------------------------------------------------------------------
+
+REDECODE_CHANGES = ["edited", "re-versioned", "removed", "appears-later"]
+
+
+@obligation(
+    "C11.redecode",
+    covers=tuple(REDECODE_CHANGES) + ("partial",),
+    bounds="a function reference (bare or with partial arguments) is encoded, decoded, then the program changes (function edited: new "
+           "automatic version; given another explicit version; removed; or the function did not exist at the first decode and is defined "
+           "afterwards) and the SAME document is decoded again: each decode reflects the program as it is at that moment (bound to the "
+           "live function iff name and version match, otherwise an external reference with the encoded name and version), and a "
+           "re-encoding of either result is the original document",
+    variables="choice: change kind, partial bit, explicit-version bit",
+    budget_s={"quick": 120, "thorough": 300},
+    choice_vars=3,
+)
+def redecode(change: int, partial: bool, explicit: bool):
+    from vp.memenv import Program, Sandbox, concrete_region
+
+    change = pick(change, len(REDECODE_CHANGES))
+    pt = True if partial else False
+    ex = True if explicit else False
+    with concrete_region():
+        name = REDECODE_CHANGES[change]
+        cover(name)
+        if pt:
+            cover("partial")
+        sb = Sandbox(kinds="memory")
+        prog = Program("vpc11r")
+        try:
+            deco = "@m.memento_function(version='1')\n" if ex else "@m.memento_function\n"
+            prog.exec(deco + "def f(x, y=0):\n    return x + 1\n")
+            f0 = prog.f
+            ref0 = (f0.partial(5) if pt else f0).fn_reference()
+            doc = MementoCodec.encode_fn_reference(ref0)
+            text = json.dumps(doc)
+            if name == "appears-later":
+                # first decode while the function does not exist, second after it has been defined
+                del prog.mod.__dict__["f"]
+                d1 = MementoCodec.decode_fn_reference(json.loads(text))
+                check("decoded-as-external-while-the-function-is-missing", d1.external and d1.qualified_name == ref0.qualified_name,
+                      (d1.external, d1.qualified_name))
+                prog.exec(deco + "def f(x, y=0):\n    return x + 1\n")
+                d2 = MementoCodec.decode_fn_reference(json.loads(text))
+                check("bound-to-the-live-function-once-it-exists", (not d2.external) and d2.memento_fn is not None
+                      and d2.qualified_name == ref0.qualified_name, (d2.external, d2.qualified_name))
+            else:
+                d1 = MementoCodec.decode_fn_reference(json.loads(text))
+                check("first-decode-is-bound-to-the-live-function", (not d1.external) and d1.qualified_name == ref0.qualified_name,
+                      (d1.external, d1.qualified_name))
+                if name == "edited":
+                    prog.exec(("@m.memento_function(version='2')\n" if ex else "@m.memento_function\n") + "def f(x, y=0):\n    return x + 2\n")
+                elif name == "re-versioned":
+                    prog.exec("@m.memento_function(version='other')\ndef f(x, y=0):\n    return x + 1\n")
+                else:
+                    del prog.mod.__dict__["f"]
+                d2 = MementoCodec.decode_fn_reference(json.loads(text))
+                check("second-decode-reflects-the-changed-program(external)", d2.external, (name, d2.external, d2.qualified_name))
+                check("stale-reference-keeps-its-encoded-name-and-version", d2.qualified_name == ref0.qualified_name,
+                      (d2.qualified_name, ref0.qualified_name))
+            for d in (d1, d2):
+                check("re-encoding-gives-the-original-document", json.dumps(MementoCodec.encode_fn_reference(d), sort_keys=True)
+                      == json.dumps(doc, sort_keys=True), (MementoCodec.encode_fn_reference(d), doc))
+                check("partial-arguments-kept", tuple(d.partial_args or ()) == tuple(ref0.partial_args or ()), (d.partial_args, ref0.partial_args))
+        finally:
+            prog.close()
+            sb.close()
